@@ -283,6 +283,7 @@ br_eax_aad_inject(br_eax_context *ctx, const void *data, size_t len)
 			return;
 		}
 		memcpy(ctx->buf + ptr, data, clen);
+		ctx->ptr = 16;
 		data = (const unsigned char *)data + clen;
 		len -= clen;
 	}
